@@ -43,6 +43,8 @@ FamDefs == [
   q_numpair |-> [Base EXCEPT !.Types = NumTypes, !.MaxRows = 1, !.Cap = 20, !.Filter = "num",
                              !.IntToks = {"min", "max"}, !.UIntToks = {"max"}, !.FltToks = {"nan", "ninf", "fb"}],
   q_widths  |-> [Base EXCEPT !.Types = {"i4", "S12"}, !.Filter = "adj", !.Cap = 200],
+  \* embedded NUL bytes inside a fixed-width string (a value like b'a\0b'; numpy strips only trailing NULs)
+  q_nul     |-> [Base EXCEPT !.Types = {"i4", "S2", "S3"}, !.Chars = {"nul", "x"}, !.MaxRows = 1, !.Cap = 300, !.Filter = "adj"],
   \* ---- thorough tier
   t_adj2    |-> [Base EXCEPT !.Types = {"i4", "S1", "S2", "S3"}, !.IntToks = {"p1", "min"}, !.Cap = 1700],
   t_adj2x   |-> [Base EXCEPT !.Types = {"i4", "f8", "S1", "S2"}, !.Cap = 1300, !.Chars = {"sp", "dl", "tb", "x", "1"}],
@@ -57,13 +59,15 @@ FamDefs == [
   t_numpair |-> [Base EXCEPT !.Types = NumTypes, !.Cap = 90, !.Filter = "num",
                              !.IntToks = {"min", "m1", "max"}, !.UIntToks = {"z", "max"}, !.FltToks = {"nan", "ninf", "fb"}],
   t_widths  |-> [Base EXCEPT !.Types = {"i4", "S4", "S5", "S6", "S7", "S8", "S9", "S10", "S11", "S12"}, !.Filter = "adj", !.Cap = 200],
-  t_widths3 |-> [Base EXCEPT !.Types = {"f4", "S5", "S12"}, !.MaxFields = 3, !.Filter = "adj", !.Cap = 150, !.FltToks = {"fa"}]
+  t_widths3 |-> [Base EXCEPT !.Types = {"f4", "S5", "S12"}, !.MaxFields = 3, !.Filter = "adj", !.Cap = 150, !.FltToks = {"fa"}],
+  t_nul     |-> [Base EXCEPT !.Types = {"i4", "S2", "S3"}, !.Shapes = {"s", "v2"}, !.Chars = {"nul", "x", "sp", "dl"}, !.Cap = 900]
 ]
 
 Names == <<"a", "b", "c", "d">>
 NoTable == [fields |-> <<>>, rows |-> <<>>]
 
-Words(F, w) == UNION {[1..n -> F.Chars] : n \in 0..w}
+\* a stored string has no trailing NUL (that is the padding): words are the canonical values
+Words(F, w) == {u \in UNION {[1..n -> F.Chars] : n \in 0..w} : u = <<>> \/ u[Len(u)] # "nul"}
 Rep(c, n) == [i \in 1..n |-> c]
 Patterns(w) ==                                  \* 12 sampled words for the wide strings
     LET P == {<<>>, Rep("x", w), <<"sp">> \o Rep("x", w - 1), Rep("x", w - 1) \o <<"sp">>,
